@@ -83,6 +83,35 @@ def ref_murmur3(buf, seed):
     return h
 
 
+_JIT = None
+
+
+def jit_views():
+    """njit wrappers that hash `buf[i:j]` where the slice is taken INSIDE jitted code: the key is then a view into the
+    parent buffer (no copy, no NUL terminator behind it), which is how the library's own `_add_ngram_*` kernels call the
+    hashes — a read past the end of the key shows up only there"""
+    global _JIT
+    if _JIT is None:
+        from numba import njit
+        s = sk()
+        f64, f32, m3 = s.fasthash64, s.fasthash32, s.murmur3
+
+        @njit
+        def v64(buf, i, j, seed):
+            return f64(buf[i:j], seed)
+
+        @njit
+        def v32(buf, i, j, seed):
+            return f32(buf[i:j], seed)
+
+        @njit
+        def vm3(buf, i, j, seed):
+            return m3(buf[i:j], seed)
+
+        _JIT = (v64, v32, vm3)
+    return _JIT
+
+
 SEEDS64 = [0, 1, 2**32 - 1, 2**32, 2**63, 2**64 - 1]
 SEEDS32 = [0, 1, 29, 2**31, 2**32 - 1]
 
@@ -149,6 +178,23 @@ def run_slice(res, rng, tier, budget_s=25):
             if real != ref_murmur3(key, seed):
                 res.oracle_failures.append({"what": f"murmur3({key.hex() or '-'}, {seed}) = {real}, reference gives {ref_murmur3(key, seed)}",
                                             "key": key.hex(), "seed": seed, "fn": "murmur3"})
+        if n % 3 == 0:
+            # the same bytes as a jitted view into a parent buffer whose neighbouring bytes are non-zero
+            import numpy as np2
+            v64, v32, vm3 = jit_views()
+            off = rng.randrange(0, 9)
+            parent = bytes(rng.randrange(1, 256) for _ in range(off)) + key + bytes(rng.randrange(1, 256) for _ in range(1 + rng.randrange(9)))
+            sd = rng.choice(SEEDS64)
+            got64 = int(v64(parent, off, off + len(key), np2.uint64(sd)))
+            got32 = int(v32(parent, off, off + len(key), np2.uint64(sd)))
+            sd3 = rng.choice(SEEDS32)
+            gotm = int(vm3(parent, off, off + len(key), np2.uint32(sd3)))
+            res.count("how_jit_view")
+            for fn, got, want, sdx in (("fasthash64", got64, ref_fasthash64(key, sd), sd), ("fasthash32", got32, ref_fasthash32(key, sd), sd), ("murmur3", gotm, ref_murmur3(key, sd3), sd3)):
+                if got != want:
+                    res.oracle_failures.append({"what": f"{fn} of the jitted view parent[{off}:{off + len(key)}] (= {key.hex() or '-'}) with seed {sdx} = {got}, reference algorithm gives {want}: "
+                                                        "the value depends on how the bytes object was produced",
+                                                "key": key.hex(), "seed": sdx, "fn": fn, "parent": parent.hex(), "off": off})
         n += 1
         res.evaluations += 1
         L = len(key)
@@ -180,6 +226,14 @@ def rerun(fail):
     key = bytes.fromhex(fail["key"])
     seed = fail["seed"]
     fn = fail["fn"]
+    if "parent" in fail:
+        parent, off = bytes.fromhex(fail["parent"]), fail["off"]
+        v64, v32, vm3 = jit_views()
+        if fn == "fasthash64":
+            return int(v64(parent, off, off + len(key), np.uint64(seed))) != ref_fasthash64(key, seed)
+        if fn == "fasthash32":
+            return int(v32(parent, off, off + len(key), np.uint64(seed))) != ref_fasthash32(key, seed)
+        return int(vm3(parent, off, off + len(key), np.uint32(seed))) != ref_murmur3(key, seed)
     if fn == "fasthash64":
         return int(s.fasthash64(key, np.uint64(seed))) != ref_fasthash64(key, seed)
     if fn == "fasthash32":
